@@ -11,6 +11,30 @@ E3 = "exhaustive / preemption-bounded prange schedule enumeration on source-deri
 
 # id -> (built, category, technique, text, note, design_ref)
 CHECKS = {
+    "C13": (
+        True,
+        "exploration",
+        E1 + " + M1 RAMSES writer, differential against the full load",
+        "For 18 (quick) / 30+ (thorough) outputs with amr, hydro, grav, rt, part and sink files (ndim 1-3, 1-2 cpus with ghosts and "
+        "boundary regions, three hydro descriptors incl. infixed and double-x names): every non-empty group subset as a list, "
+        "every group subset switched off with False, every subset of each descriptor's variables (deviation bound 2 from all/none "
+        "for long descriptors) and name sets from pairs of descriptors. Each selective load is compared bit-for-bit with the "
+        "projection of the full load of the same files; vector assembly is predicted by an independently written merge rule.",
+        "Trusted: M1 writer; the full load is anchored to the model by C01.",
+        "DESIGN.md §3 C13",
+    ),
+    "C14": (
+        True,
+        "exploration",
+        E1 + " + M1 particle/sink writer",
+        "Particles: ndim x ncpu(1-3) x every per-cpu count vector over {0,1,3} x every d/i/b column type string up to length 3 "
+        "(4 thorough) x position/velocity component sets full/partial/none x header record sizes x 2 unit systems, compared with "
+        "the concatenation in cpu order of the stored values times the independently derived unit factor; sort-on-load with ties "
+        "(key ordered, rows a permutation applied to all columns). Sinks: missing/empty/1-3 rows x both unit-line dialects x "
+        "extra columns x unit systems, unit lines evaluated by an independent mini-evaluator.",
+        "Trusted: M1 writer of part_*.out and sink_*.csv (my reading of RAMSES), M2 unit table.",
+        "DESIGN.md §3 C14",
+    ),
     "C12": (
         True,
         "exploration",
